@@ -505,6 +505,19 @@ VARIANTS = [
     V("silent-runner-parsed-inline", silent=["C17"], edits=[
         (CM, "        problems.extend(_syntax_problems('runner', runner_code))\n", "        try:\n            ast.parse(runner_code)\n        except SyntaxError as exc:\n            problems.append(f'generated runner is not valid Python (line {exc.lineno})')\n")],
       note="the syntax helper inlined for the runner"),
+    V("c11-unvisited-history-of-parallel-enters-nothing", {"C11": "R2", "C01": "R2b"}, edits=[
+        (B, "                return [parent.states[parent.initial]]\n            return [parent]\n", "                return [parent.states[parent.initial]]\n            return []\n")],
+      note="the defect repaired in /repo 5a024e0"),
+    V("c04-async-consumer-started-before-initial-macrostep", {"C04": "R4", "C01": "R5"}, edits=[
+        (I, "        self.status = 'running'\n        try:\n            for plugin in self._plugins:\n", "        self.status = 'running'\n        self._event_loop_task = asyncio.create_task(self._run_event_loop())\n        try:\n            for plugin in self._plugins:\n"),
+        (I, "            await self._settle_transient_transitions()\n            self._event_loop_task = asyncio.create_task(self._run_event_loop())\n", "            await self._settle_transient_transitions()\n")],
+      note="the defect repaired in /repo 2e9580d"),
+    V("c15-stopchild-unresolved-target-not-dropped", {"C15": "R4"}, edits=[
+        (I, "        if actor is None:\n            pass\n            return\n        for actor_id, candidate in list(self._actors.items()):\n", "        if actor is None:\n            pass\n        for actor_id, candidate in list(self._actors.items()):\n")],
+      note="the guard clause loses its return: the stop below runs with an unresolved target"),
+    V("silent-stopchild-guard-as-if-else", silent=["C15", "C14"], edits=[
+        (I, "        if actor is None:\n            pass\n            return\n        for actor_id, candidate in list(self._actors.items()):\n", "        if actor is None:\n            pass\n            actor = None\n        if actor is None:\n            return\n        for actor_id, candidate in list(self._actors.items()):\n")],
+      note="a second, redundant guard clause"),
     # ================================================================== must stay silent
     V("silent-normal-form", silent=ALL, edits=[], note="whole tree re-emitted by ast.unparse: formatting, comments and line numbers all change"),
     V("silent-rename-local", silent=["C01", "C03", "C05", "C09", "C10"], edits=[
